@@ -8,6 +8,8 @@ from ..world import table_from_perms, all_perms, rotate
 from ..refs.rungs import rung_levels
 from ..refs.stopping import StoppingRef
 
+from ..scheds import shared as scheds_shared
+
 LEVEL = "model_checking"
 PROP = "C03"
 
@@ -28,7 +30,7 @@ def make_scheduler(cfg):
     rs = RUNG_SYSTEMS[cfg["rs"]]
     kw = dict(searcher="random", type=cfg["type"], metric="m", mode=cfg["mode"], resource_attr="epoch",
               brackets=cfg["brackets"], rung_system_per_bracket=cfg["per_bracket"],
-              random_seed=cfg["seed"], search_options={"debug_log": False})
+              random_seed=cfg["seed"], search_options=scheds_shared("so", {"debug_log": False}))
     space = {"a": uniform(0, 1)}
     if cfg.get("use_mra"):
         space["epochs"] = rs["max_t"]
